@@ -69,6 +69,16 @@ func c07Scenarios() []*Scenario {
 		sc.Name = fmt.Sprintf("checkpoint/legacy two nodes with different headers at the checkpoint height initial=%v", initial)
 		out = append(out, sc)
 	}
+	// two misbehaving nodes whose chains END at the same contradicting header: the second one's
+	// message holds nothing but headers the service already has
+	{
+		bs := tree(5, 0, 0)
+		bs = append(bs, BlockSpec{Parent: 2})
+		sc := &Scenario{Engine: "legacy", Blocks: bs, Checkpoints: []int{3}, BadBlock: 6, BadNode: 1, BadNodes: []int{2}, BadBlocks: []int{6}}
+		sc.Nodes = []NodeSpec{{Chain: seq(1, 5), Reliable: true}, {Chain: []int{1, 2, 6}}, {Chain: []int{1, 2, 6}}}
+		sc.Name = "checkpoint/legacy two nodes whose chains end at the same contradicting header"
+		out = append(out, sc)
+	}
 	// a heavy tip below the checkpoint height; the misbehaving node's lighter fork reaches the
 	// checkpoint height with less work (all of it STALE)
 	{
